@@ -87,6 +87,7 @@ def sched_cases(tier, rnd):
 
 
 FAKE_TABLES: dict[str, set] = {}      # root dir -> {(relative name, pass number)} where a change is reported
+FAKE_DELAYS: dict[str, dict] = {}     # root dir -> {relative name: seconds}: how long format_file takes on that file
 
 
 def _fake_format_file(filename, preserve=frozenset(), safe=False):
@@ -95,6 +96,9 @@ def _fake_format_file(filename, preserve=frozenset(), safe=False):
     n = int(p.read_text() or "0") + 1
     p.write_text(str(n))
     rel = str(p.relative_to(root))
+    delay = FAKE_DELAYS.get(root, {}).get(rel, 0)
+    if delay:
+        time.sleep(delay)          # a big file: its worker finishes after the workers of later, smaller files
     with open(os.path.join(root, "dispatch.log"), "a") as fh:       # O_APPEND: atomic for short lines
         fh.write(rel + "\n")
     return (rel, n) in FAKE_TABLES[root]
@@ -137,6 +141,7 @@ def run_files_case(mainmod, base: Path, idx: int, case) -> dict:
         (root / f"d{f[0]}").mkdir(parents=True, exist_ok=True)
         (root / name(f)).write_text("0")
     FAKE_TABLES[str(root)] = {(name(f), p) for (f, p) in map(tuple, case["table"])}
+    FAKE_DELAYS[str(root)] = {name(tuple(f)): d for (f, d) in case.get("delays", [])}
     try:
         with common.quiet():
             ret = mainmod.format_files([root / name(f) for f in case["files"]], n_cores=case["n_cores"],
@@ -146,7 +151,27 @@ def run_files_case(mainmod, base: Path, idx: int, case) -> dict:
         return {"ret": bool(ret), "log": log, "counts": counts}
     finally:
         FAKE_TABLES.pop(str(root), None)
+        FAKE_DELAYS.pop(str(root), None)
         shutil.rmtree(root, ignore_errors=True)
+
+
+def delay_cases():
+    """Schedule sweep on the driver itself (seed-independent): a scripted format_file that is SLOW on the files
+    that sort first, so that with >= 2 workers the completion order differs from the submission order; >= 2
+    folders, max_passes >= 2.  Each case is run with one worker without delays (one after the other) and with
+    2 and 3 workers with delays; files formatted (count per file) and return value must agree."""
+    out = []
+    for sizes in [(1, 1), (2, 1), (1, 2), (1, 1, 1)]:
+        files = [(d, f) for d, n in enumerate(sizes) for f in range(n)]
+        folders = sorted({d for d, _ in files})
+        for passes in (2, 3):
+            for changing in folders:                        # exactly this folder keeps changing until the last pass
+                table = sorted(((d, f), p) for (d, f) in files if d == changing for p in range(1, passes))
+                for slow in ("first", "changing"):
+                    slow_files = [f for f in files if (f[0] == folders[0] if slow == "first" else f[0] == changing)]
+                    delays = [(f, 0.25) for f in slow_files]
+                    out.append({"passes": passes, "files": files, "table": table, "delays": delays})
+    return out
 
 
 def py_files_model(case):
@@ -372,6 +397,23 @@ def job_files_cases(job):
 c05.JOBS["files_cases"] = job_files_cases
 
 
+def job_delay_cases(job):
+    """In a fork of the pristine zygote: every delay case with 1 worker (no delays) and with 2 and 3 workers."""
+    mainmod = c05.MODS["main"]
+    _fake_format_file.__module__, _fake_format_file.__qualname__ = "pyrefact.main", "format_file"
+    _fake_format_file.__name__ = "format_file"
+    mainmod.format_file = _fake_format_file
+    out = []
+    for idx, case in job["cases"]:
+        ref = _safe(run_files_case, mainmod, Path(job["base"]), f"{idx}_ref", dict(case, n_cores=1, delays=[]))
+        runs = [(n, _safe(run_files_case, mainmod, Path(job["base"]), f"{idx}_{n}", dict(case, n_cores=n))) for n in (2, 3)]
+        out.append({"ref": ref, "runs": runs})
+    return out
+
+
+c05.JOBS["delay_cases"] = job_delay_cases
+
+
 def build_tree(root: Path, files: dict[str, str]):
     for rel, text in files.items():
         (root / rel).parent.mkdir(parents=True, exist_ok=True)
@@ -464,7 +506,7 @@ def _check(run, wd, mods, farm, t_start):
 
     # ---- the hash-seed children start first (they run in the background while the rest proceeds)
     t0 = time.time()
-    pool, hstats = c05_corpus.harvest(mods)
+    pool, hstats = c05.harvest_isolated(farm)
     rules = []
     for r in pool:
         try:
@@ -593,6 +635,31 @@ def _check(run, wd, mods, farm, t_start):
         hist[f"files:passes={case['passes']}:cores={case['n_cores']}"] += 1
         if len(mlog) >= 2:
             files_distinct.add(json.dumps([case["passes"], sorted(case["files"]), case["table"]]))
+    # schedule sweep on the driver: slow files first, several workers (completion order != submission order)
+    dcases = delay_cases()
+    dbase = wd / "ffd"
+    dbase.mkdir()
+    dchunks = [list(enumerate(dcases))[i::6] for i in range(6)]
+    djobs = farm.map([{"kind": "delay_cases", "base": str(dbase), "cases": ch, "timeout": 600} for ch in dchunks if ch])
+    n_delay = 0
+    for ch, (st, *rest) in zip([c for c in dchunks if c], djobs):
+        if st != "ok":
+            failures.append(("delay-job-failed", {"error": rest[0]}))
+            continue
+        for (idx, case), r in zip(ch, rest[0]):
+            ref = r["ref"]
+            for n, got in r["runs"]:
+                n_delay += 1
+                if "error" in ref or "error" in got:
+                    failures.append(("format_files-crash", {"case": case, "error": ref.get("error") or got.get("error")}))
+                elif got["counts"] != ref["counts"] or got["ret"] != ref["ret"]:
+                    failures.append(("completion-order-dependent-driver",
+                                     {"site": "main.format_files", "case": case, "n_cores": n,
+                                      "one_after_the_other": {"times_formatted": ref["counts"], "return": ref["ret"]},
+                                      "parallel": {"times_formatted": got["counts"], "return": got["ret"]},
+                                      "explanation": "format_files with a scripted format_file (reports a change for the "
+                                                     "(file, pass) pairs of the table, is slow on the listed files): with "
+                                                     "several workers other files are re-formatted than one after the other"}))
     for k in range(0, len(fitems), SH):
         p = wd / f"files_{k // SH}.v"
         body = ";\n ".join(g_files_case(c, b, r) for (c, b, r) in fitems[k:k + SH])
@@ -807,7 +874,7 @@ def _check(run, wd, mods, farm, t_start):
         sweep={"hashseeds": seeds, "hashseeds_rules_only": rule_seeds, "suspicious_ops_rerun": len(suspicious),
                "format_code_inputs": len(fmt_inputs), "rule_inputs": len(rules),
                "generated_modules": len(gen), "comparisons": n_code, "perturbation_calls": n_perturb,
-               "perturbation_reps": reps, "trees": len(trees), "tree_comparisons": n_tree_cmp,
+               "perturbation_reps": reps, "trees": len(trees), "tree_comparisons": n_tree_cmp, "delayed_driver_runs": n_delay,
                "package_families": sorted(PACKAGE_FAMILIES), "package_runs": len(pkg_futs)},
         corpus_size=len(pool), corpus_harvest=hstats, histogram=dict(hist), timing=timing,
         failure_sites=dict(site_hist), correspondence_disagreements=len(disagreements),
@@ -879,6 +946,26 @@ def replay(path: str) -> int:
                                            "sequential": True, "safe": data.get("safe", False), "cwd": str(root),
                                            "n_cores": 1, "max_passes": 1}, 0)
             print("order", order, "->", json.dumps(o.get("tree", o), indent=1)[:1500])
+    elif kind == "completion-order-dependent-driver":
+        c05.MODS = common.import_impl()
+        farm = c05.Farm(1)
+        try:
+            case = data["case"]
+            case["files"] = [tuple(f) for f in case["files"]]
+            case["table"] = [(tuple(f), p) for f, p in case["table"]]
+            case["delays"] = [(tuple(f), d) for f, d in case["delays"]]
+            (wd / "ffd").mkdir(exist_ok=True)
+            st, *rest = farm._one({"kind": "delay_cases", "base": str(wd / "ffd"), "cases": [(0, case)]})
+            if st == "ok":
+                r = rest[0][0]
+                print("one after the other:", r["ref"].get("counts"), "return", r["ref"].get("ret"))
+                for n, got in r["runs"]:
+                    print(f"{n} workers, slow files {case['delays']}:", got.get("counts"), "return", got.get("ret"),
+                          "" if got.get("counts") == r["ref"].get("counts") and got.get("ret") == r["ref"].get("ret") else "  <-- DIFFERS")
+            else:
+                print(rest)
+        finally:
+            farm.close()
     elif kind == "schedule-dependent-tree":
         cfgs = {"ref-1core-sorted": (1, 3, False, "sorted"), "2cores-shuffled": (2, 3, False, "shuffled"),
                 "4cores-shuffled": (4, 3, False, "shuffled"), "16cores-reversed": (16, 3, False, "reversed"),
